@@ -132,7 +132,10 @@ def gen_mux(rng, tier, long_run=False):
     maxsz = 8 if long_run else (60 if tier == 'quick' else 200)
     for i in range(nv):
         key = (i == 0) or (not reorder and rng.random() < 0.1)
-        data = video_frame(rng, vc, key, rng.randrange(1, maxsz))
+        # the submitted flag is what must be recorded: sometimes the payload says otherwise (IDR data flagged as
+        # non-key, non-IDR data flagged as key)
+        data_is_key = key if (i == 0 or rng.random() > 0.2) else (not key)
+        data = video_frame(rng, vc, data_is_key, rng.randrange(1, maxsz))
         dts = times[i]
         pts = times[slots[i]] + delay * step
         if not reorder and rng.random() < 0.6:
@@ -581,6 +584,19 @@ def gen_nallist(rng, tier):
         'h265': {'VPSa': HVPS, 'VPSb': [0x40, 0x01, 0x0c, 0x02, 0x33], 'SPSa': HSPS, 'SPSb': [0x42, 0x01, 0x02, 0x21, 0x60] + HSPS[5:] + [0x99],
                  'PPSa': HPPS, 'PPSb': [0x44, 0x01, 0xc1], 'IDR': [0x26, 0x01, 0xaf], 'P': [0x02, 0x01, 0xd0], 'SEI': [0x4e, 0x01, 0x05], 'E': []},
     }
+    # truncated / minimal parameter sets (1..6 bytes, and around the HEVC level byte) as the stream's configuration
+    for n in (1, 2, 3, 4, 5, 6):
+        for m in (1, 2, 4):
+            cfg = base_cfg('h264', 'none')
+            cfg['facets'] = F
+            d = SC4 + (SPS_B[:n]) + SC3 + (PPS_A[:m]) + SC4 + [0x65, 0x88, 0x84]
+            out.append({'cfg': cfg, 'calls': [{'op': 'wv', 'pts': fin(0), 'data': d, 'key': True}, {'op': 'fin', 'how': 'in_place_stats'}]})
+    for n in (1, 2, 3, 4, 5, 13, 14, 15, 16, len(HSPS)):
+        for m in (1, 2, 3):
+            cfg = base_cfg('h265', 'none')
+            cfg['facets'] = F
+            d = SC4 + HVPS[:max(1, m)] + SC4 + HSPS[:n] + SC3 + HPPS[:m] + SC4 + [0x26, 0x01, 0xaf]
+            out.append({'cfg': cfg, 'calls': [{'op': 'wv', 'pts': fin(0), 'data': d, 'key': True}, {'op': 'fin', 'how': 'in_place_stats'}]})
     maxlen = 3 if tier == 'quick' else 4
     for vc in ('h264', 'h265'):
         names = list(units[vc].keys())
